@@ -94,10 +94,14 @@ def install_fakes():
     bb.mmap = _FakeMmapModule
 
 
-def make_file(K, name, nbytes):
-    """returns (filename to pass to bitstring, raw bits of the file as a bitarray)"""
+def make_file(K, name, nbytes, concrete=None):
+    """returns (filename to pass to bitstring, raw bits of the file as a bitarray); concrete = bytes for a file of fixed content"""
     import bitarray
-    raw = K.bits('file_' + name, 8 * nbytes)
+    if concrete is not None:
+        raw = bitarray.bitarray()
+        raw.frombytes(bytes(concrete))
+    else:
+        raw = K.bits('file_' + name, 8 * nbytes)
     if K.symbolic:
         fn = f'/sbx/{name}.bin'
         _FILES[fn] = raw.copy()
